@@ -734,7 +734,7 @@ pub fn replay(file: &Value) -> bool {
 
 
 const HANG_LIMIT: std::time::Duration = std::time::Duration::from_secs(150);
-const CHILD_MEMORY_LIMIT: u64 = 12 << 30;
+const CHILD_MEMORY_LIMIT: u64 = 3 << 30;
 
 fn out_base(k: usize) -> String {
     format!("/dev/shm/gv-c04-{:07}-{:02}", std::process::id() % 10_000_000, k)
@@ -880,9 +880,10 @@ fn run_children(opts: &Opts, all: &[Case]) -> (Vec<CaseResult>, Vec<Violation>) 
                     });
                 }
                 restarts += 1;
-                if restarts > 40 {
-                    eprintln!("HARNESS ERROR: too many C04 worker deaths");
-                    std::process::exit(2);
+                if restarts > 24 {
+                    // the compiler keeps dying: that is the finding; stop exploring this share
+                    kids[k] = None;
+                    continue;
                 }
                 match spawn_child(opts, k, n, idx, &base) {
                     Ok(c) => {
